@@ -1,16 +1,45 @@
+# Operations of zkir/src/instructions/operations/*.rs and their Lean mirrors (both semantics).
+# The list of files / functions is regenerated from the directory on every run (Gen.opSources) and
+# pinned by theorem `operation_sources_all_mirrored`; the Lean names are resolved by Lean (table
+# `mirrors` in Props/C18.lean); the dispatch of both `process_instruction`s (which function, which
+# inputs, in which order) is regenerated and pinned by `dispatch_matches_source`.
+#
+#   operation (file)        off-circuit (Rust -> Lean)                      in-circuit (Rust -> Lean, gadget level)
+#   load                    load_offcircuit/check_loadable -> loadOff, getT load_incircuit/convert_values -> loadCVal, assignBoundedShape
+#   publish                 as_public_input -> encodeOne / encodePI         publish_incircuit -> publishIn, publishAll (+ get_type -> CVal.type)
+#   assert_equal            derived PartialEq -> opOff (.assertEq)          assert_equal_incircuit -> comparableIn
+#   assert_not_equal        derived PartialEq -> opOff (.assertNe)          assert_not_equal_incircuit -> comparableIn
+#   is_equal                derived PartialEq -> opOff (.isEq)              is_equal_incircuit -> comparableIn
+#   add                     add_offcircuit -> addOff                        add_incircuit -> addIn, addShape (addBounds, normalizeShape)
+#   sub                     sub_offcircuit -> subOff                        sub_incircuit -> subIn, subShape
+#   mul                     mul_offcircuit -> mulOff                        mul_incircuit -> mulIn, mulShape (mulRows)
+#   neg                     neg_offcircuit -> negOff                        neg_incircuit -> negIn
+#   mod_exp                 mod_exp_offcircuit -> modExpOff (powMod)        mod_exp_incircuit -> modExpIn, modExpShape (modExpLoop, divRemShape)
+#   inner_product           inner_product_offcircuit -> innerProductOff     inner_product_incircuit -> innerProductIn, ipFoldIn, msmFold
+#   affine_coordinates      affine_coordinates_offcircuit -> affineOff      affine_coordinates_incircuit -> affineIn
+#   into_bytes              IrValue::into_bytes -> intoBytesOff             into_bytes_incircuit -> intoBytesIn   (Native, BigUint, JubjubPoint)
+#   from_bytes              IrValue::from_bytes -> fromBytesOff             from_bytes_incircuit -> fromBytesIn, fromBytesShape (Native, BigUint, JubjubPoint, JubjubScalar)
+#   poseidon                poseidon_offcircuit -> opOff + H.poseidon       poseidon_incircuit -> opIn + H.poseidon (uninterpreted, same function)
+#   sha256 / sha512         sha*_offcircuit -> opOff + H.sha*               sha*_incircuit -> opIn + H.sha*        (uninterpreted, same function)
+# There is no comparison (LessThan), cond_select, div_mod_power_of_two, hash_to_curve or transient /
+# persistent operation in this version of the crate: 17 operations, all mirrored.
 CHECK = {
     "lean_module": "MidnightZK.Props.C18",
     "harness": "h-c18",
     "translators": ["c18_tables", "c18_serde"],
     "level": "proof",
-    "technique": "executable model of both ZKIR interpreters + simulation proof + three-way differential run; "
+    "technique": "executable model of both ZKIR interpreters + simulation proof (with an invariant bounding every in-circuit "
+                 "BigUint by its limb bounds, which makes format_instance total) + three-way differential run with "
+                 "per-instruction off-circuit values and per-instruction in-circuit types; dispatch tables and the list of "
+                 "operation sources regenerated from the Rust sources; "
                  "executable models of the bincode decoder and of the serde JSON reader/writer + round-trip, injectivity and "
                  "canonical-form proofs + decoder correspondence on mutated encodings",
     "rule": "one request per ZKIR program+witness: hand-written boundary programs (regressions of every repaired defect), "
             "seeded random straight-line programs of length 1..25 over all 17 operations and 6 value types with dataflow reuse, "
             "constants and publication of every type, their ill-formed variants (wrong arity, duplicate / missing names, "
             "retargeted inputs, malformed constants, missing / ill-typed / out-of-range witnesses); non-trivial = at least 2 "
-            "instructions; distinctness by hash of the request line. Serialisation: one `dec` request per byte string "
+            "instructions; distinctness by hash of the request line; every `run` line also carries the in-circuit type of the outputs of "
+            "every instruction (section shp). Serialisation: one `dec` request per byte string "
             "(bytes of the real encoder and of a fault-injecting encoder: valid, truncated, extended, flipped / set / inserted "
             "bytes, over-wide integers, u128 / reserved markers, out-of-range variant indices, over-long lengths around the "
             "limit, boundary payloads 0 / 250 / 251 / 2^16 / 2^32 / 2^64-1, empty / multi-byte / ill-formed UTF-8 names, wrong "
@@ -22,10 +51,21 @@ CHECK = {
                    "encoding and the binary program format; every line compares the model with the real code on: loader verdict, "
                    "per-instruction off-circuit trace (input and output values), off-circuit verdict with failing position and "
                    "error class, in-circuit compilation verdict with the recorded public-input types (BigUint limb-bound "
-                   "bookkeeping), raw public inputs, mock-checker verdict on the compiled circuit, bytes of write_relation, JSON "
+                   "bookkeeping), the in-circuit type of the outputs of EVERY instruction (section shp: one witness-free pass over "
+                   "the program with `Publish <outputs>` inserted after each instruction, so that the limb bookkeeping of a value "
+                   "that is consumed but never published is compared too), raw public inputs, mock-checker verdict on the compiled circuit, bytes of write_relation, JSON "
                    "text of the derived Serialize; the harness checks the property's oracle directly on the real code (no panic, "
                    "off-circuit success => circuit satisfied with encode(P), off-circuit failure => circuit not satisfied, API "
-                   "consistency, JSON and binary round trips). Serialisation (last clause of the property): Lean models of "
+                   "consistency, JSON and binary round trips). Proved about the two interpreters: off_in_agree_partial, "
+                   "off_fail_unsat_partial (hypothesis RunRegular = finding N7 only), typing_errors_agree (an off-circuit rejection "
+                   "that is not a witness condition is an error VALUE in-circuit too; an in-circuit error other than the comparison "
+                   "gap / a limb-bookkeeping panic is an off-circuit rejection; only witness conditions end in a violated "
+                   "constraint), off_in_agree_public_inputs_partial (format_instance SUCCEEDS and returns the bound public inputs: "
+                   "the hypothesis `format_instance returns a value` of off_in_agree_partial is discharged by the invariant that "
+                   "every BigUint of the in-circuit memory is bounded by its limb bounds - sums, products, differences, remainders, "
+                   "byte conversions, loads, constants), dispatch_matches_source and operation_sources_all_mirrored (the arms of "
+                   "both process_instruction functions and the functions of instructions/operations/, parsed on every run). "
+                   "Serialisation (last clause of the property): Lean models of "
                    "read_relation (bincode 2 standard configuration: varints, u32 variant indices, length-prefixed vectors and "
                    "UTF-8 strings, the claim/unclaim accounting of the 2^24-byte limit, trailing bytes left unread, then the arity "
                    "check) and of ZkirRelation::read at the level of the serde data model (structs from objects or arrays, "
@@ -33,16 +73,26 @@ CHECK = {
                    "encoder's bytes followed by anything returns the program and the rest (decode_encode_bin, read_write_relation, "
                    "for every compiled size and limit, under the explicit limit bound), programs beyond the limit are rejected "
                    "(decode_rejects_beyond_limit), the encoder is injective, the decoder accepts exactly the canonical encodings "
-                   "plus over-wide integers (decode_canonical_partial + witness decode_not_canonical), fromJson (toJson p) = p "
-                   "(fromJson_toJson; reader more liberal than writer: fromJson_not_injective). Tied on every run: for each `dec` "
-                   "line the real read_relation and the model must agree on the verdict class, the decoded program (names as "
+                   "plus over-wide integers (decode_canonical_partial + witness decode_not_canonical; as an equivalence: "
+                   "decode_strict_iff_encoder_output - the strict decoder accepts bs with result (p, rest) iff bs = write_relation(p) "
+                   "++ rest; a byte string accepted only by the real decoder is a canonicity observation - the serialized relation "
+                   "is malleable in the width of its integers - not a round-trip violation and not recorded as a defect: nothing "
+                   "in the repository compares or hashes relation bytes that were read rather than written), fromJson (toJson p) "
+                   "= p (fromJson_toJson), also for the trees that leave out the serde-default fields `inputs` / `outputs` when "
+                   "empty and for the positional form (fromJson_defaults, all 17 variants; reader more liberal than writer: "
+                   "fromJson_not_injective). Tied on every run: for each `dec` "
+                   "line (oracle: a program returned by read_relation must be accepted by from_instructions, and evaluating a "
+                   "relation read from bytes must not panic) the real read_relation and the model must agree on the verdict class, the decoded program (names as "
                    "bytes), the number of unread bytes and on whether re-encoding with write_relation gives the consumed bytes "
                    "back (= the strict model decoder accepts); for each `json` line the real ZkirRelation::read on the rendered "
                    "text and the model on the tree must agree on the error class or the program. Variant order, payload integer "
                    "types, serde names / field names / defaults and the decoding limit are parsed from the sources by the "
                    "translators on every run and pinned by theorems; the translator c18_serde is deliberately tight: it stops "
                    "when write_relation / read_relation / read no longer have the literal bincode / serde_json calls it knows, or "
-                   "when a serde attribute it does not model appears",
+                   "when a serde attribute it does not model appears; c18_tables stops when the arms of process_instruction are "
+                   "no longer the variants of Operation in declaration order. Deliberately tight: dispatch_matches_source fires "
+                   "on a re-ordered / renamed call inside an arm even if behaviour is unchanged (inputs are compared as the "
+                   "literal index expressions)",
     "trusted_base": [
         "gadgets of midnight-circuits / zk_stdlib are taken at their specification at the gadget boundary (properties C04-C07): "
         "the in-circuit model says what each compiled ZKIR operation computes and constrains, not how rows are laid out",
@@ -60,12 +110,15 @@ CHECK = {
         "requests are ASCII without separators (arbitrary UTF-8 names go through the `dec` / `json` requests)",
         "size_of::<Instruction>() and size_of::<String>() (limit accounting) are reported by the harness in each `dec` request; "
         "the non-vacuity examples use the 64-bit values 72 and 24",
+        "off_in_agree_public_inputs_partial: byte arrays of the witness and hash digests hold values below 256 (BytesOK) and "
+        "operation payloads fit their Rust integer types (Op.InRange: ModExp(u64)) - automatically true of Rust values",
     ],
     "level_text": "Kernel-checked Lean theorems about an executable model of both ZKIR interpreters (all programs, all witnesses, "
-                  "hash functions uninterpreted) and of the binary and JSON readers/writers of programs (round trips, injectivity, "
+                  "hash functions uninterpreted; agreement of values, of typing errors and of the public-input encoding) and of the binary and JSON readers/writers of programs (round trips, injectivity, "
                   "exact canonical form), with the model compared line by line with the real loader, interpreter, compiler, "
                   "public-input encoder, mock checker, serialisers and deserialisers on generated programs, byte strings and JSON "
-                  "trees on every run",
+                  "trees on every run (per-instruction values off-circuit, per-instruction types in-circuit), and the dispatch of "
+                  "both interpreters regenerated from the sources",
     "level_note": "Trusted: Lean kernel, the correspondence harness and driver; gadget internals below the ZKIR operation level "
                   "(C04-C07) and the hash functions are specified, not verified. off_in_agree / off_fail_unsat are proved as "
                   "`_partial`: hypothesis RunRegular restricts exactly one operation at one type — FromBytes(JubjubScalar) must be "
@@ -73,10 +126,15 @@ CHECK = {
                   "without that instruction is covered for all witnesses (runRegular_of_no_scalar_conversion), and for that class "
                   "off_fail_unsat is proved at full strength (off_fail_unsat_no_scalar_conversion); the in-circuit pass may reject "
                   "with a static error (comparison typing gap, negation of full typing agreement proved; BigUint limb-bookkeeping "
-                  "panic); format_instance succeeding is a hypothesis of the public-input equality. Round trips: the binary one "
+                  "panic); typing_errors_agree is proved at full strength for every operation except that recorded gap (error "
+                  "value on both sides for every off-circuit rejection that is not a witness condition); format_instance "
+                  "succeeding is no longer a hypothesis: off_in_agree_public_inputs_partial proves it (for byte arrays holding "
+                  "bytes and ModExp exponents below 2^64, as every Rust value) - it stays `_partial` only for RunRegular and the "
+                  "static-rejection alternative. Round trips: the binary one "
                   "holds under an explicit bound of the decoder's 2^24-byte allocation limit (programs beyond it are written but "
                   "not read back: decode_rejects_beyond_limit, more than 233016 instructions); canonical form is `_partial`: "
-                  "read_relation also accepts over-wide integers (exactly those: strict-decoder theorem + witness) and leaves "
+                  "read_relation also accepts over-wide integers (exactly those: strict-decoder theorem, equivalence "
+                  "decode_strict_iff_encoder_output + witness; a canonicity observation, not a round-trip violation) and leaves "
                   "trailing bytes unread; the JSON theorem is about trees (serde data model), text syntax is serde_json's; the "
                   "decoder and reader models are of third-party code (bincode, serde) and are tied by correspondence only",
     "timeout": {"quick": 900, "thorough": 3000, "search": 1500},
